@@ -176,9 +176,9 @@ Example C08_example_qubo :
 Proof.
   destruct C08_example_hypotheses as (Hn & Hc & Hp & Er & Ec & _).
   destruct C08_example_optimum as (Hp2 & _ & Hopt & Hcost).
-  destruct (C08_path_qubo 5 0 ex_ops Hn Hc Hp) as (s & Es & Hmin & Hval).
-  { eexists; exact Hp2. }
-  fold ex_st in Es, Hmin, Hval. cbv zeta in Hmin, Hval.
+  pose proof (C08_path_qubo 5 0 ex_ops) as Hq. cbv zeta in Hq.
+  change (prun ex_ops (pempty 5 0)) with ex_st in Hq.
+  destruct (Hq Hn Hc Hp (ex_intro _ _ Hp2)) as (s & Es & Hmin & Hval). clear Hq.
   assert (ES : S_path (pcosts ex_st) = 21) by (vm_compute; reflexivity). rewrite ES in Hmin, Hval.
   exists s. split; [exact Es|]. split; [exact ES|].
   assert (Hx : sys_qubo_min s 21 (Zvec_of [0; 1; 0])).
